@@ -36,6 +36,11 @@ def run(tier):
         jobs.append(("sst", i, gmp, ng))
         jobs.append(("rio", i, gmp, ng))
 
+    # two more executions on an UNCOMPRESSED file that is cut inside its last record (odd i, (i // 2) % 4 == 0): many goroutines on many cores
+    jobs += [("rio", 97, "16", 16), ("rio", 105, "4", 8)]
+    # and two on an uncompressed file whose records are longer than the seek window (i % 4 == 0)
+    jobs += [("rio", 96, "16", 16), ("rio", 104, "4", 8)]
+
     def do(job):
         kind, i, gmp, ng = job
         work = common.scratch("C18-%s-%d" % (kind, i))
@@ -56,7 +61,11 @@ def run(tier):
             inp = {"dir": os.path.join(work, "d"), "nkeys": rng.choice([40, 400]) if kind == "sst" else rng.choice([60, 600]), "goroutines": ng,
                    "calls": 400 if thorough else 150, "seed": SEED * 100 + i, "comp": (i // 2) % 4 if kind == "rio" else i % 4,
                    # every other mmap execution reads a file that is cut inside its last record (failing reads next to succeeding ones)
-                   "cuttail": kind == "rio" and i % 2 == 1}
+                   "cuttail": kind == "rio" and i % 2 == 1,
+                   # records longer than the 4 KiB window of SeekNext in some executions (seeks that start inside a record scan several windows)
+                   "recsize": 6000 if kind == "rio" and i % 4 in (0, 3) else 0}
+            if inp["recsize"]:
+                inp["nkeys"] = 60
             with open(trace + ".in.json", "w") as f:
                 json.dump(inp, f)
             penv = dict(os.environ)
